@@ -146,24 +146,21 @@ theorem wf_densePass (d1 : Doc) (start : Nat) (hs : d1.objects.Sorted) (d' : Doc
   · rename_i pairs newId hp
     obtain ⟨hp1, hp2⟩ := densePairs_some _ _ _ _ _ hp
     simp only [List.nil_append] at hp1
-    split at h
-    · cases h
-    · rename_i hne
-      cases h
-      have hperm := sortBy_perm idLeE d1.objects.keys
-      have hn : (sortBy idLeE d1.objects.keys).Nodup := hperm.nodup_iff.mpr (Objects.sorted_nodup _ hs)
-      have hk : ∀ k, k ∈ sortBy idLeE d1.objects.keys ↔ (d1.objects.get k).isSome := by
-        intro k; rw [hperm.mem_iff]; exact Objects.mem_keys_iff _ _
-      constructor
-      · intro k hk'
-        simp only at hk'
-        rw [traverse_isSome] at hk'
-        rw [hp1] at hk'
-        obtain ⟨p, hpm, hpk⟩ := (dense_move_isSome d1.bookmarks d1.objects d1.bmTable _ start hn hk k).mp hk'
-        have := assign_lt _ start p hpm
-        simp only
-        rw [← hpk, hp2]; omega
-      · exact traverse_sorted _ _ _ (movePass_sorted _ _ _ _ hs)
+    cases h
+    have hperm := sortBy_perm idLeE d1.objects.keys
+    have hn : (sortBy idLeE d1.objects.keys).Nodup := hperm.nodup_iff.mpr (Objects.sorted_nodup _ hs)
+    have hk : ∀ k, k ∈ sortBy idLeE d1.objects.keys ↔ (d1.objects.get k).isSome := by
+      intro k; rw [hperm.mem_iff]; exact Objects.mem_keys_iff _ _
+    constructor
+    · intro k hk'
+      simp only at hk'
+      rw [traverse_isSome] at hk'
+      rw [hp1] at hk'
+      obtain ⟨p, hpm, hpk⟩ := (dense_move_isSome d1.bookmarks d1.objects d1.bmTable _ start hn hk k).mp hk'
+      have := assign_lt _ start p hpm
+      simp only
+      rw [← hpk, hp2]; omega
+    · exact traverse_sorted _ _ _ (movePass_sorted _ _ _ _ hs)
 
 theorem deleteObject_sorted (d : Doc) (id : ObjId) (h : d.objects.Sorted) : (deleteObject d id).1.objects.Sorted := by
   simp only [deleteObject]; exact Objects.sorted_remove _ _ (traverse_sorted _ _ _ h)
